@@ -254,6 +254,65 @@ Proof.
     rewrite F1, F2. unfold hdr_len. replace (ref <=? 255)%N with false by (symmetry; apply N.leb_gt; lia). lia.
 Qed.
 
+(* ---- the DATA octets Set() writes: for every reference (total 7, sequence 3), and for every (total, sequence) pair at the
+        references 0, 255, 256, 65535, the running code's element is the model's - id, length and the big-endian value of
+        the data octets (which, with the length, fixes every octet) ---- *)
+Definition be_val (d : bytes) : N := fold_left (fun a x => a * 256 + x)%N d 0%N.
+
+Lemma wd_header_data_shape : wd_header_data_runs = [(0, 255, 0, 3, 1795); (256, 65535, 8, 4, 16779011)]%N.
+Proof. vm_compute. reflexivity. Qed.
+Lemma wd_header_ts_shape : wd_header_ts_runs =
+  [(0, 0, 65535, 0, 3, 0); (255, 0, 65535, 0, 3, 16711680); (256, 0, 65535, 8, 4, 16777216); (65535, 0, 65535, 8, 4, 4294901760)]%N.
+Proof. vm_compute. reflexivity. Qed.
+
+Theorem header_data_is_model ref : (ref < 65536)%N ->
+  exists lo hi id dl v0, In (lo, hi, id, dl, v0) wd_header_data_runs /\ (lo <= ref <= hi)%N /\
+    fst (concat_ie ref 7 3) = id /\ N.of_nat (length (snd (concat_ie ref 7 3))) = dl /\
+    be_val (snd (concat_ie ref 7 3)) = (v0 + 65536 * (ref - lo))%N.
+Proof.
+  intros Hr. rewrite wd_header_data_shape. unfold concat_ie.
+  destruct (N.leb_spec ref 255) as [L|L].
+  - exists 0%N, 255%N, 0%N, 3%N, 1795%N. split; [now left|]. split; [lia|].
+    replace ((ref / 256) mod 256 =? 0)%N with true by (symmetry; apply N.eqb_eq; lia).
+    cbn [fst snd tl length be_val fold_left]. repeat split; lia.
+  - exists 256%N, 65535%N, 8%N, 4%N, 16779011%N. split; [right; now left|]. split; [lia|].
+    replace ((ref / 256) mod 256 =? 0)%N with false by (symmetry; apply N.eqb_neq; lia).
+    cbn [fst snd tl length be_val fold_left]. repeat split; lia.
+Qed.
+
+Theorem header_ts_is_model ref total seq : In ref [0; 255; 256; 65535]%N -> (total < 256)%N -> (seq < 256)%N ->
+  exists id dl v0, In (ref, 0, 65535, id, dl, v0)%N wd_header_ts_runs /\
+    fst (concat_ie ref total seq) = id /\ N.of_nat (length (snd (concat_ie ref total seq))) = dl /\
+    be_val (snd (concat_ie ref total seq)) = (v0 + (256 * total + seq))%N.
+Proof.
+  intros Hin Ht Hs. rewrite wd_header_ts_shape. unfold concat_ie.
+  destruct Hin as [<-|[<-|[<-|[<-|[]]]]].
+  - exists 0%N, 3%N, 0%N. split; [now left|]. change ((0 / 256) mod 256 =? 0)%N with true.
+    cbn [fst snd tl length be_val fold_left]. repeat split; lia.
+  - exists 0%N, 3%N, 16711680%N. split; [right; now left|]. change ((255 / 256) mod 256 =? 0)%N with true.
+    cbn [fst snd tl length be_val fold_left]. change (255 mod 256)%N with 255%N. repeat split; lia.
+  - exists 8%N, 4%N, 16777216%N. split; [right; right; now left|]. change ((256 / 256) mod 256 =? 0)%N with false.
+    cbn [fst snd tl length be_val fold_left]. change ((256 / 256) mod 256)%N with 1%N. change (256 mod 256)%N with 0%N. repeat split; lia.
+  - exists 8%N, 4%N, 4294901760%N. split; [right; right; right; now left|]. change ((65535 / 256) mod 256 =? 0)%N with false.
+    cbn [fst snd tl length be_val fold_left]. change ((65535 / 256) mod 256)%N with 255%N. change (65535 mod 256)%N with 255%N. repeat split; lia.
+Qed.
+
+(* ---- exact widths: for the single-octet charsets, UCS-2 and EUC-JP the splitter charges exactly 8 bits per octet the
+        encoder emits, for every accepted scalar value (so for them C07_maximal reads in octets) ---- *)
+Definition row_exact (x : wrow) : bool := let '(lo, hi, n, wd) := x in (wd =? 8 * n)%N.
+Lemma wd_exact_ok : forallb row_exact wd_ascii = true /\ forallb row_exact wd_latin1 = true /\ forallb row_exact wd_cyrillic = true /\
+  forallb row_exact wd_hebrew = true /\ forallb row_exact wd_ucs2 = true /\ forallb row_exact wd_eucjp = true.
+Proof. repeat split; vm_compute; reflexivity. Qed.
+Definition width_exact (tbl : list wrow) : Prop := forall r n wd, wd_find r tbl = Some (n, wd) -> wd = (8 * n)%N.
+Lemma row_exact_sound tbl : forallb row_exact tbl = true -> width_exact tbl.
+Proof.
+  intros K r n wd H. destruct (wd_find_in _ _ _ _ H) as (lo & hi & I & _).
+  rewrite forallb_forall in K. specialize (K _ I). unfold row_exact in K. apply N.eqb_eq in K. exact K.
+Qed.
+Theorem width_exact_all : width_exact wd_ascii /\ width_exact wd_latin1 /\ width_exact wd_cyrillic /\ width_exact wd_hebrew /\
+  width_exact wd_ucs2 /\ width_exact wd_eucjp.
+Proof. destruct wd_exact_ok as (A & B & C & D & E & F). repeat split; apply row_exact_sound; assumption. Qed.
+
 (* ================================================================ assembled for Properties/C07.v *)
 Lemma w_1byte_pos r : 0 < w_1byte r. Proof. unfold w_1byte. lia. Qed.
 Lemma w_multibyte_pos r : 0 < w_multibyte r. Proof. unfold w_multibyte. destruct (r <? 127)%N; lia. Qed.
